@@ -101,6 +101,8 @@ type FnTr struct {
 	refute   bool        // counterexample search: bounded unrolling, inlining, no quantifiers
 	unrollK  int
 	excEdges []excEdge   // refute mode: precise exceptional edges
+	globalSeen map[*ssa.Global]bool
+	globalList []*ssa.Global // package variables this function mentions, in order of first mention
 	excLocks  []excLock    // proof mode: lock state at every panic point caught by a recovering defer
 	recDefers []*ssa.Defer // the defer statements of the function whose closure calls recover()
 	inlining map[*ssa.Function]bool
@@ -646,6 +648,21 @@ func (tr *FnTr) check(kind string, cond *Term, p token.Pos) {
 	tr.panicEdge(kind, cond, p)
 }
 
+// noteGlobal records that this function (top-level frame) mentions package variable g and
+// reports whether it was known already. The per-function list keeps VCs independent of what
+// was verified before, and in a fixed order.
+func (top *FnTr) noteGlobal(g *ssa.Global) bool {
+	if top.globalSeen == nil {
+		top.globalSeen = map[*ssa.Global]bool{}
+	}
+	if top.globalSeen[g] {
+		return true
+	}
+	top.globalSeen[g] = true
+	top.globalList = append(top.globalList, g)
+	return false
+}
+
 // recoverCovers reports whether a panic at the current instruction of the top-level function
 // is caught by one of its recovering defers: the defer statement must already have been
 // executed, i.e. it precedes the instruction in the same block or sits in a dominating block.
@@ -1131,7 +1148,8 @@ func (tr *FnTr) globalSeparation(obj *Term, elem types.Type) {
 	top := tr.top
 	top.typedObjs = append(top.typedObjs, typedObj{obj: obj, elem: elem})
 	var cs []*Term
-	for g, id := range tr.eng.globals {
+	for _, g := range tr.top.globalList {
+		id := tr.eng.globalID(g)
 		gt := g.Type().Underlying().(*types.Pointer).Elem()
 		if !typeContains(gt, elem, 0) {
 			cs = append(cs, Ne(obj, Int(id)))
@@ -1154,7 +1172,8 @@ func (tr *FnTr) globalSepFacts(v Val) *Term {
 		if elem == nil {
 			continue
 		}
-		for g, id := range tr.eng.globals {
+		for _, g := range tr.top.globalList {
+			id := tr.eng.globalID(g)
 			gt := g.Type().Underlying().(*types.Pointer).Elem()
 			if !typeContains(gt, elem, 0) {
 				cs = append(cs, Ne(v.L[i], Int(id)))
